@@ -472,13 +472,19 @@ def rule_if_merge(run):
     br = ot.find_branch(ai.node, ot.isinstance_test("inp", "out.If"))
     if br is None:
         raise AnalysisError("anchor vanished: out.If branch of _apply_impl")
-    nb = [s for s in walk_local(br) if isinstance(s, ast.If) and P.T(s.test) == "not any_body"]
-    no = [s for s in walk_local(br) if isinstance(s, ast.If) and P.T(s.test) == "not any_orelse"]
-    # the asymmetric pair lives in the final else of the merge decision
+    from ..astutil import chain_arms
+    # the asymmetric pair: the arms `not any_body` and `not any_orelse` of one chain (however the chain spells its tail)
     pair = None
-    for a in nb:
-        if len(a.orelse) == 1 and isinstance(a.orelse[0], ast.If) and P.T(a.orelse[0].test) == "not any_orelse":
-            pair = (a, a.orelse[0])
+    for cand in walk_local(br):
+        if isinstance(cand, ast.If):
+            arms = dict(chain_arms(cand))
+            if "not any_body" in arms and "not any_orelse" in arms and len(arms) == 3:
+                class _Arm:
+                    pass
+                a, b = _Arm(), _Arm()
+                a.body, b.body = arms["not any_body"], arms["not any_orelse"]
+                a.lineno = b.lineno = cand.lineno
+                pair = (a, b)
     if pair is None:
         raise AnalysisError("asymmetric merge cases of the If lowering not recognised (unknown idiom)")
     a, b = pair
